@@ -136,7 +136,7 @@ func (p *Parser) parseTransaction() *ast.Transaction {
 	}
 
 	for p.current.Type == TokenIndent {
-		posting := p.parsePosting()
+		posting := p.parsePosting(tx)
 		if posting != nil {
 			tx.Postings = append(tx.Postings, *posting)
 		}
@@ -234,14 +234,16 @@ func (p *Parser) parseStatus() ast.Status {
 	return status
 }
 
-func (p *Parser) parsePosting() *ast.Posting {
+// parsePosting parses one indented line of tx: a posting, or a comment line, which is
+// kept (with its tags) among the transaction's comments like the header's comment.
+func (p *Parser) parsePosting(tx *ast.Transaction) *ast.Posting {
 	if p.current.Type != TokenIndent {
 		return nil
 	}
 	p.advance()
 
 	if p.current.Type == TokenComment {
-		p.parseComment()
+		tx.Comments = append(tx.Comments, p.parseComment())
 		return nil
 	}
 
